@@ -404,7 +404,9 @@ ASMJIT_FAVOR_SIZE Error init_func_detail(FuncDetail& func, const FuncSignature& 
               vec_pos++;
             }
             else {
-              uint32_t size = TypeUtils::size_of(type_id);
+              // Each stack argument occupies a multiple of the native register size - a 32-bit float takes 8 bytes
+              // in 64-bit mode.
+              uint32_t size = Support::align_up(TypeUtils::size_of(type_id), register_size);
               arg.assign_stack_offset(int32_t(stack_offset));
               stack_offset += size;
             }
